@@ -19,6 +19,12 @@
                                operation, dequeue) up to JNew, then JNew.
      cs pollfn                 WTake of the task's wake thread if its upgrade failed, else the runner's JLockPf / JClear.
      cs pipeobj <stream>       the runner's JPoll (LStream);   cs pipeobj <process>   the runner's JProc (LProcess).
+     api COOPYIELD             (directly after the task's process section) the processing future of a SLOW item has woken its
+                               own waker and returned Pending: the model's JProc step must have suspended the item (JSusp;
+                               items produced by the op g are slow).  The re-poll of the suspended poll job is silent
+                               (LNone); it is taken when the next stream section arrives, performed by WHICHEVER task (pool
+                               thread, sync caller draining, another future's poll): that task is the runner from then on.
+                               A COOPYIELD without a later stream section = an item still suspended at the end.
    Everything else (core, sched, threads, busy, fres, ... and all `acq` events) belongs to lower layers and is ignored;
    the other operations on the object (D/S/T) are not replayed: nothing of them is visible in the pipe's lock classes.
    At every event the model actor must be enabled and its step_label must be the event's class.  At the end the
@@ -37,7 +43,8 @@ exception Diverge of string
 exception Unsupported of string
 
 (* ---------- program text: the one pipe_in, its stream, its object, the number of items, is the release awaited ---------- *)
-type pinfo = { obj : int; stream : int; nitems : int; has_z : bool }
+(* slow : per caller, the flags (slow or not) of the items it produces on the pipe's stream, in script order *)
+type pinfo = { obj : int; stream : int; slow : bool list array; has_z : bool }
 
 let parse_prog (text : string) : pinfo =
   let parts = String.split_on_char '|' text in
@@ -51,13 +58,15 @@ let parse_prog (text : string) : pinfo =
   let t = List.hd pipes in
   let (q, j) = num t 1 in
   let (k, _) = num t (j + 1) in
-  let nitems = List.fold_left (fun acc t -> if t.[0] = 'G' then (let (k', j) = num t 1 in let (n, _) = num t (j + 1) in if k' = k then acc + n else acc) else acc) 0 toks in
+  let slow = Array.of_list (List.map (fun part ->
+      List.concat_map (fun t -> if t.[0] = 'G' || t.[0] = 'g' then (let (k', j) = num t 1 in let (n, _) = num t (j + 1) in if k' = k then List.init n (fun _ -> t.[0] = 'g') else []) else [])
+        (List.filter (fun x -> x <> "") (String.split_on_char ' ' part))) (List.tl parts)) in
   let has_z = List.exists (fun t -> t.[0] = 'Z' && fst (num t 1) = k) toks in
-  { obj = q; stream = k; nitems; has_z }
+  { obj = q; stream = k; slow; has_z }
 
 (* ---------- printing the model state for messages ---------- *)
 let show_op = function OPoll k -> Printf.sprintf "OPoll %d" (i k) | OOther n -> Printf.sprintf "OOther %d" (i n) | OFree -> "OFree"
-let show_pc = function JNew -> "JNew" | JLockPf -> "JLockPf" | JPoll -> "JPoll" | JProc x -> Printf.sprintf "JProc %d" (i x) | JClear -> "JClear" | JEnd -> "JEnd"
+let show_pc = function JNew -> "JNew" | JLockPf -> "JLockPf" | JPoll -> "JPoll" | JProc x -> Printf.sprintf "JProc %d%s" (i (fst x)) (if snd x then " (slow)" else "") | JSusp x -> Printf.sprintf "JSusp %d" (i (fst x)) | JClear -> "JClear" | JEnd -> "JEnd"
 let show_wpc = function WCall k -> Printf.sprintf "WCall %d" (i k) | WUpgrade -> "WUpgrade" | WEnq -> "WEnq" | WDropRc -> "WDropRc" | WTake -> "WTake" | WDone -> "WDone"
 let show_label = function LPollFn -> "pollfn" | LStream -> "stream" | LProcess -> "process" | LPipeWaker -> "pwaker" | LNone -> "silent"
 let show_running (s : state) = match s.running with
@@ -73,10 +82,24 @@ type stats = { mutable steps : int; mutable labelled : int; mutable stutters : i
 type upgrade = UOk | UFail
 (* coverage of the model's branches over all replayed logs *)
 let c_upg_ok = ref 0 and c_upg_fail = ref 0 and c_drop = ref 0 and c_take = ref 0 and c_clear = ref 0 and c_pending = ref 0 and c_none = ref 0
-and c_late = ref 0 and c_items = ref 0 and c_jobs = ref 0 and c_noreg = ref 0 and c_queued_behind = ref 0 and c_pollfn_gone_job = ref 0
+and c_late = ref 0 and c_susp = ref 0 and c_resume = ref 0 and c_resume_other = ref 0 and c_items = ref 0 and c_jobs = ref 0 and c_noreg = ref 0 and c_queued_behind = ref 0 and c_pollfn_gone_job = ref 0
 
 let replay (p : pinfo) (evs : ev array) : stats =
-  let items = List.init p.nitems nat_of_int in
+  (* the items in the order in which they are made available (PRODUCE markers), each with its script: item x is slow iff the
+     op that produced it is g; the producing op is found through the caller (api CALLER) that logged the marker *)
+  let items =
+    let caller_of : (int, int) Hashtbl.t = Hashtbl.create 8 in
+    let rest = Array.copy p.slow in
+    let acc = ref [] and cnt = ref 0 in
+    Array.iter (fun (e : ev) ->
+        if e.kind = "api" && e.cls = "CALLER" then Hashtbl.replace caller_of e.task e.id
+        else if e.kind = "api" && e.cls = "PRODUCE" && e.id = p.stream then begin
+          let c = (match Hashtbl.find_opt caller_of e.task with Some c -> c | None -> raise (Unsupported "PRODUCE by a task that is no caller")) in
+          (match (if c < Array.length rest then rest.(c) else []) with
+           | f :: r -> rest.(c) <- r; acc := (nat_of_int !cnt, f) :: !acc; incr cnt
+           | [] -> raise (Diverge (Printf.sprintf "caller %d produces more items than its script says" c)))
+        end) evs;
+    List.rev !acc in
   let s = ref (init items) in
   let st = { steps = 0; labelled = 0; stutters = 0 } in
   let n = Array.length evs in
@@ -98,21 +121,22 @@ let replay (p : pinfo) (evs : ev array) : stats =
       if guard = 0 then div "too many silent runner steps";
       match !s.running with
       | Some (OPoll _, JNew) -> ()
-      | Some (OPoll _, (JLockPf | JPoll | JProc _ | JClear)) -> ()
+      | Some (OPoll _, (JLockPf | JPoll | JProc _ | JSusp _ | JClear)) -> ()
       | _ -> (match step_label !s ARun with Some LNone -> do_step ARun LNone "silent runner step"; go (guard - 1) | _ -> ()) in
     go 100 in
   (* identities learnt from the log *)
   let pipeobjs = ref [] in                      (* ids of the pipeobj mutexes in creation order: stream, process *)
   let pollfn_id = ref (-1) in
   let created = ref false in
-  let runner = ref (-1) in
+  let runner = ref (-1) and susp_task = ref (-1) in
+  let just_processed : (int, bool) Hashtbl.t = Hashtbl.create 8 in   (* the task's last pipe event was a process section *)
   let pend_call : (int, int) Hashtbl.t = Hashtbl.create 8 in      (* task -> its wake thread, still to call the waker *)
   let pend_take : (int, int) Hashtbl.t = Hashtbl.create 8 in      (* task -> its wake thread, upgrade failed, still to take poll_fn *)
   let drop_seen = ref false and drop_applied = ref false in
   (* the implementation's observable state, recomputed from the raw log only *)
-  let impl_processed = ref 0 and impl_pollfn = ref true in
+  let impl_processed = ref 0 and impl_pollfn = ref true and impl_susp = ref false in
   let after_wake : (int, bool) Hashtbl.t = Hashtbl.create 8 in    (* task has called a waker and not started a job / a new input event since *)
-  let job_pollfn : (int, int) Hashtbl.t = Hashtbl.create 8 in     (* pollfn sections of the task inside its current poll job *)
+  let job_pollfn = ref 0 in                                        (* pollfn sections inside the current poll job (by whichever tasks poll it) *)
   (* did the upgrade of the wake that task t has just started succeed?  (see the header) *)
   let lookahead t =
     let rec go j =
@@ -193,6 +217,10 @@ let replay (p : pinfo) (evs : ev array) : stats =
     let e = evs.(k) in
     let t = e.task in
     (match e.kind, e.cls with
+     | "api", "COOPYIELD" -> ()
+     | "cs", ("pollfn" | "pwaker" | "pipeobj") | "new", "pwaker" -> Hashtbl.replace just_processed t false
+     | _ -> ());
+    (match e.kind, e.cls with
      | "cs", "pollfn" -> decide_own t true
      | "api", _ | "cs", "pwaker" | "new", "pwaker" | "cs", "pipeobj" -> decide_own t false
      | _ -> ());
@@ -207,6 +235,16 @@ let replay (p : pinfo) (evs : ev array) : stats =
       do_step (AWake O) LNone "initial upgrade"; do_step (AWake O) LNone "initial enqueue"; do_step (AWake O) LNone "initial drop of the temporary Arc"
     | "api", "PRODUCE" when e.id = p.stream -> input_event t AEnvAvail "PRODUCE"
     | "api", "CLOSE" when e.id = p.stream -> input_event t AEnvEnd "CLOSE"
+    | "api", "COOPYIELD" ->
+      (* the processing future of a slow item wakes its own waker and returns Pending *)
+      (* (other futures on the object may yield co-operatively too: the marker is the pipe's iff the task's previous pipe
+         event was the process section) *)
+      if Hashtbl.find_opt just_processed t = Some true then begin
+        Hashtbl.replace just_processed t false;
+        match !s.running with
+        | Some (OPoll _, JSusp _) when t = !runner && not !impl_susp -> impl_susp := true; susp_task := t; decr impl_processed; incr c_susp
+        | _ -> div "the implementation's processing of an item yields co-operatively, but the model's item is not slow / not in hand (%s)" (show_running !s)
+      end
     | "api", "DROPOBJ" when e.id = p.obj -> drop_seen := true; Hashtbl.replace after_wake t false
     | "api", _ -> Hashtbl.replace after_wake t false
     | "cs", "pwaker" ->
@@ -221,7 +259,7 @@ let replay (p : pinfo) (evs : ev array) : stats =
          do_step (AWake (nat_of_int idx)) LPipeWaker "PipeWaker::wake";
          after_call t idx)
     | "new", "pwaker" ->
-      Hashtbl.replace after_wake t false; Hashtbl.replace job_pollfn t 0;
+      Hashtbl.replace after_wake t false; job_pollfn := 0;
       settle_run ();
       (* a job the model has not queued yet: some undecided wake thread has succeeded *)
       let rec need () = match !s.running with
@@ -239,8 +277,7 @@ let replay (p : pinfo) (evs : ev array) : stats =
       (* implementation side, from the raw log *)
       (if Hashtbl.find_opt after_wake t = Some true then impl_pollfn := false
        else begin
-         let c = 1 + (match Hashtbl.find_opt job_pollfn t with Some c -> c | None -> 0) in
-         Hashtbl.replace job_pollfn t c; if c >= 2 then impl_pollfn := false
+         incr job_pollfn; if !job_pollfn >= 2 then impl_pollfn := false
        end);
       (match Hashtbl.find_opt pend_take t with
        | Some idx -> Hashtbl.remove pend_take t; incr c_take; do_step (AWake (nat_of_int idx)) LPollFn "poll_fn take after a failed upgrade"
@@ -249,13 +286,25 @@ let replay (p : pinfo) (evs : ev array) : stats =
          (match !s.running with Some (_, JClear) -> incr c_clear | Some (_, JLockPf) when not !s.pollfn -> incr c_pollfn_gone_job | _ -> ());
          do_step ARun LPollFn "poll_fn section of the poll job")
     | "cs", "pipeobj" ->
+      Hashtbl.replace after_wake t false;
       (match !pipeobjs with
        | [ sid; pid ] ->
+         (* a suspended poll job is re-polled by whichever task drains the queue: the silent resume step, and that task
+            is the runner from now on *)
+         (match !s.running with
+          | Some (OPoll _, JSusp _) when e.id = sid ->
+            if not !impl_susp then div "model: an item is suspended, but the implementation logged no COOPYIELD";
+            do_step ARun LNone "re-poll of the suspended poll job"; runner := t; impl_susp := false; incr impl_processed; incr c_resume;
+            if t <> !susp_task then incr c_resume_other
+          | Some (OPoll _, JSusp _) -> div "task %d locks pipeobj %d while an item is suspended: the re-polled poll job must go on with poll_next (%s)" t e.id (show_running !s)
+          | _ -> if !impl_susp then div "task %d locks pipeobj %d after a COOPYIELD, but the model has no suspended item (%s)" t e.id (show_running !s));
          if t <> !runner then div "task %d locks pipeobj %d but the poll job is run by task %d" t e.id !runner;
          if e.id = sid then begin
            (if !s.ready = [] then (if !s.ended then incr c_none else incr c_pending) else incr c_items);
            do_step ARun LStream "poll_next" end
-         else if e.id = pid then begin incr impl_processed; do_step ARun LProcess "processing closure" end
+         else if e.id = pid then begin
+           incr impl_processed; do_step ARun LProcess "processing closure"; Hashtbl.replace just_processed t true
+         end
          else div "unknown pipeobj mutex %d" e.id
        | _ -> div "pipeobj section before both mutexes of pipe_in were created")
     | _ -> ()
@@ -269,9 +318,12 @@ let replay (p : pinfo) (evs : ev array) : stats =
   settle_run ();
   flush_wakes ();
   (match step_label !s AChute with Some LNone -> do_step AChute LNone "chute" | _ -> ());
-  let model_processed = List.map i (processed !s.log) in
+  let model_processed = List.map (fun x -> i (fst x)) (processed !s.log) in
   if List.length model_processed <> !impl_processed then div "at END: the implementation processed %d items, the model %d" !impl_processed (List.length model_processed);
   List.iteri (fun j x -> if x <> j then div "at END: the model processed item %d at position %d" x j) model_processed;
+  (match !s.running with
+   | Some (OPoll _, JSusp _) -> if not !impl_susp then div "at END: the model has a suspended item, the implementation has not"
+   | _ -> if !impl_susp then div "at END: the implementation has a suspended item, the model has not (%s)" (show_running !s));
   if !created && !s.pollfn <> !impl_pollfn then div "at END: poll_fn is %s in the implementation and %s in the model" (if !impl_pollfn then "present" else "None") (if !s.pollfn then "present" else "None");
   if !created && p.has_z && not !s.released then div "at END: the implementation has released stream and closure (Z returned), the model has not (%s; poll_fn %b, chute %b)" (show_running !s) !s.pollfn !s.chute;
   st
@@ -304,6 +356,6 @@ let () =
          with
          | Diverge msg -> incr bad; Printf.printf "DIVERGE\t%s\t%s\t%s\n" file !prog msg
          | Unsupported why -> incr skipped; Printf.printf "SKIP\t%s\t%s\n" file why)) files;
-  Printf.printf "COVER\tpoll_jobs=%d\tpoll_item=%d\tpoll_pending=%d\tpoll_none=%d\tclear=%d\tjob_finds_pollfn_none=%d\tevents_without_waker=%d\tupgrade_ok=%d\tenqueued_while_job_in_body=%d\tupgrade_failed=%d\tlast_owner_drop=%d\ttake=%d\tlate_items_never_polled=%d\n"
-    !c_jobs !c_items !c_pending !c_none !c_clear !c_pollfn_gone_job !c_noreg !c_upg_ok !c_queued_behind !c_upg_fail !c_drop !c_take !c_late;
+  Printf.printf "COVER\tpoll_jobs=%d\tpoll_item=%d\tpoll_pending=%d\tpoll_none=%d\tclear=%d\tjob_finds_pollfn_none=%d\tevents_without_waker=%d\tupgrade_ok=%d\tenqueued_while_job_in_body=%d\tupgrade_failed=%d\tlast_owner_drop=%d\ttake=%d\tlate_items_never_polled=%d\tsuspended=%d\tresumed=%d\tresumed_by_other_task=%d\n"
+    !c_jobs !c_items !c_pending !c_none !c_clear !c_pollfn_gone_job !c_noreg !c_upg_ok !c_queued_behind !c_upg_fail !c_drop !c_take !c_late !c_susp !c_resume !c_resume_other;
   Printf.printf "SUMMARY\tok=%d\tdiverged=%d\tskipped=%d\tmodel_steps=%d\tlabelled_steps=%d\tstutters=%d\tevents=%d\n" !ok !bad !skipped !steps !labelled !stutters !events
